@@ -123,6 +123,19 @@ Example C14_odf_href_partial_nonvacuous :
 Proof. vm_compute. auto. Qed.
 Print Assumptions C14_odf_href_partial_nonvacuous.
 
+(* member lookup is by exact name: a reference is never served another member (names differing in letter case,
+   Unicode normalisation form or a space are different members) *)
+Theorem C14_member_lookup_exact :
+  forall (names : list str) (p q : str), member_of names p = Some q -> q = p /\ In p names.
+Proof. exact member_of_exact. Qed.
+Print Assumptions C14_member_lookup_exact.
+Example C14_member_lookup_case_twins :
+  member_of [s "Pictures/logo.png"; s "Pictures/Logo.png"] (s "Pictures/logo.png") = Some (s "Pictures/logo.png")
+  /\ member_of [s "Pictures/logo.png"; s "Pictures/Logo.png"] (s "Pictures/Logo.png") = Some (s "Pictures/Logo.png")
+  /\ member_of [s "Pictures/Logo.png"] (s "Pictures/logo.png") = None.
+Proof. vm_compute. repeat split. Qed.
+Print Assumptions C14_member_lookup_case_twins.
+
 (* ================= 2. header sniffers ================= *)
 Open Scope Z_scope.
 
